@@ -76,6 +76,17 @@ func (server *Server) serveConn(conn net.Conn) {
 	defer server.recoverPanic(conn)
 	defer conn.Close()
 
+	// A connection that is accepted while the server is shutting down (the
+	// listener is closed only after the HTTP/1.1 connections have drained)
+	// is not served. The cancelled handshake context alone does not
+	// guarantee that: it only interrupts a handshake that is still waiting
+	// for I/O, a fast handshake can complete before the interrupt.
+	if server.ctx.Err() != nil {
+		server.vlogf("not serving %s: server is shutting down", conn.RemoteAddr())
+		server.metricsRequestsTotalInc("0", "")
+		return
+	}
+
 	hijackedConn := hack.NewHijackClientHelloConn(conn)
 	hijackedConn.VerboseLogFunc = server.vlogf
 
